@@ -296,7 +296,7 @@ def refs_pool(h, o):
     return ["r take %s 0" % h, "r take %s 1" % h, "r takeo %s %s 0" % (h, o), "r clone %s %s" % (h, o), "r drop %s" % h,
             "r detach %s" % h, "r cut %s 0" % h, "r cut %s 1" % h, "r push %s %s" % (h, o), "r wrap %s" % h,
             "r set %s 0 %s 0 1" % (h, o), "r set %s 1 %s 0 2" % (h, o), "r set %s 2 %s 1 1" % (h, o),
-            "r madd %s 1" % h, "r madd %s 0" % h, "r leaf %s 2" % h, "r mnew %s 1 0" % h]
+            "r madd %s 1" % h, "r madd %s 0" % h, "r leaf %s 2" % h, "r mnew %s 1 0" % h, "r selfset %s 0" % h, "r selfset %s 2" % h]
 
 
 def refs_scripts(tier, seed, scale=1):
@@ -317,7 +317,7 @@ def refs_scripts(tier, seed, scale=1):
             h = r.choice(hs)
             o = r.choice([x for x in hs if x != h])
             kind = r.choice(["leaf", "wrap", "push", "push", "take", "takeo", "clone", "clone", "drop", "detach", "cut",
-                             "set", "set", "mnew", "madd", "madd"])
+                             "set", "set", "mnew", "madd", "madd", "selfset"])
             if kind == "leaf":
                 lines.append("r leaf %s %d" % (h, r.choice([1, 2, 3])))
             elif kind == "wrap":
@@ -338,6 +338,8 @@ def refs_scripts(tier, seed, scale=1):
                 lines.append("r cut %s %d" % (h, r.choice([0, 0, 1, 2])))
             elif kind == "set":
                 lines.append("r set %s %d %s %d %d" % (h, r.choice([0, 0, 1, 2]), o, r.choice([0, 0, 1]), r.choice([1, 1, 2, 3])))
+            elif kind == "selfset":
+                lines.append("r selfset %s %d" % (h, r.choice([0, 0, 1, 2])))
             elif kind == "mnew":
                 lines.append("r mnew %s %d %d" % (h, r.choice([0, 1, 2, 3]), r.choice([0, 1, 1])))
             else:
